@@ -122,19 +122,44 @@ def parseRanges (ts : List String) : List (Nat × Nat) :=
     | [a, b] => some (natD a, natD b)
     | _ => none
 
-def judgeDiff (a b : List (Nat × Nat)) (ts : List String) : Option String :=
+/-- `pyeq v c v c …`: the Python-equality class of each serialisation id (absent: identity) -/
+def parseCls (body : List String) : Nat → Nat :=
+  let tbl := pairsOf (nats (firstWith "pyeq" body))
+  fun v => match tbl.find? (·.1 == v) with
+    | some p => p.2
+    | none => v
+
+/-- one `diff` observation against the logical maps.  Without a `pyeq` table "equal" is serialised
+    identity (the tree's own notion: two values are the same iff it hashes them alike); with one the
+    case asks for Python's `==` (`cls`). -/
+def judgeDiff (py : Bool) (cls : Nat → Nat) (a b : List (Nat × Nat)) (ts : List String) : Option String :=
   let ab := parseRanges ((ts.drop 1).takeWhile (· != "|"))
   let rest := (ts.dropWhile (· != "|")).drop 1
   let ba := parseRanges ((rest.drop 1).takeWhile (· != "|"))
-  firstSome [
-    check (merkleEmptyIffEqual a b ab) "merkle/diff/empty-iff-equal-broken",
-    check (merkleEmptyIffEqual b a ba) "merkle/diff/empty-iff-equal-broken",
-    check (merkleCovers a b ab) "merkle/diff/differing-key-not-covered",
-    check (merkleCovers b a ba) "merkle/diff/differing-key-not-covered"]
+  if py then
+    let sigE := fun (r : List (Nat × Nat)) =>
+      if pyEqualMaps cls a b && !r.isEmpty then "merkle/diff/nonempty-but-python-equal"
+      else "merkle/diff/empty-iff-equal-broken"
+    firstSome [
+      check (merkleEmptyIffEqualC cls a b ab) (sigE ab),
+      check (merkleEmptyIffEqualC cls b a ba) (sigE ba),
+      check (merkleCoversC cls a b ab) "merkle/diff/differing-key-not-covered",
+      check (merkleCoversC cls b a ba) "merkle/diff/differing-key-not-covered"]
+  else
+    firstSome [
+      check (merkleEmptyIffEqual a b ab) "merkle/diff/empty-iff-equal-broken",
+      check (merkleEmptyIffEqual b a ba) "merkle/diff/empty-iff-equal-broken",
+      check (merkleCovers a b ab) "merkle/diff/differing-key-not-covered",
+      check (merkleCovers b a ba) "merkle/diff/differing-key-not-covered"]
 
+/-- The logical maps are what the *user* stored: `a`/`b` lines, then every `upd`/`del` (an `upd` is an
+    `update(key, value)` call, whether the value is a new object or the stored object changed in
+    place and published again).  Every `diff` is judged against them. -/
 def judgeMerkle (body : List String) : List String :=
-  let a0 := sortKV (pairsOf (nats (firstWith "a" body)))
-  let b0 := sortKV (pairsOf (nats (firstWith "b" body)))
+  let a0 := (MT.ofList (pairsOf (nats (firstWith "a" body)))).data
+  let b0 := (MT.ofList (pairsOf (nats (firstWith "b" body)))).data
+  let cls := parseCls body
+  let py := body.any fun l => l.startsWith "pyeq"
   let rec go (a b : List (Nat × Nat)) (want : Bool) : List String → Option String
     | [] => if want then some "merkle/missing-observation" else none
     | l :: ls =>
@@ -145,7 +170,7 @@ def judgeMerkle (body : List String) : List String :=
       | ["del", "b", k] => go a (mapDel b (natD k)) want ls
       | ["diff"] => if want then some "merkle/missing-observation" else go a b true ls
       | "obs" :: "d" :: rest =>
-        match judgeDiff a b rest with
+        match judgeDiff py cls a b rest with
         | some sig => some sig
         | none => go a b false ls
       | _ => go a b want ls
